@@ -131,7 +131,9 @@ NoIntermediateOverflow == pc = "routed" => ~IntermediateOverflowPossible(cfg)
 
 (* ---- state machine --------------------------------------------------------------------------------- *)
 FamOf(d, a, w, sz) ==      \* one operand family per configuration, rotating
-  IF a = "qint8" /\ w = "qint8" /\ (sz[2] + sz[3]) % 2 = 0 THEN "sat"
+  IF sz[2] > 64 THEN       \* large K: only families whose product has a closed form (TLC evaluates it per output element)
+     (IF a = "float" /\ w = "qint8" THEN "bigf" ELSE <<"onehot", "alt">>[((sz[1] + sz[3]) % 2) + 1])
+  ELSE IF a = "qint8" /\ w = "qint8" /\ (sz[2] + sz[3]) % 2 = 0 THEN "sat"
   ELSE IF IsF8(a) /\ IsF8(w) /\ (sz[1] + sz[3]) % 2 = 1 THEN "big8"
   ELSE IF a = "float" /\ w = "qint8" /\ sz[2] >= 32 THEN "bigf"
   ELSE IF a = "qint8" /\ IsF8(w) /\ (sz[1] + sz[2]) % 2 = 0 THEN "bigm"
